@@ -139,10 +139,14 @@ func StepWorkflowPaths(wf *workflow.Workflow) map[string]string {
 		if ok1 {
 			kind, ok1 := stepDataMap["kind"]
 			if ok1 {
-				kindString := kind.(string)
+				// Ill-typed values are reported when the step is validated against its schema.
+				kindString, _ := kind.(string)
 				if kindString == "foreach" {
 					subworkflowPath := stepDataMap["workflow"]
-					subworkflowPathString := subworkflowPath.(string)
+					subworkflowPathString, isString := subworkflowPath.(string)
+					if !isString {
+						continue
+					}
 					stepFilePaths[subworkflowPathString] = subworkflowPathString
 				}
 			}
